@@ -465,6 +465,22 @@ def _gen_consts_only(src):
 #         "sched": [[tid, steps, events], ...]}
 BIG = 10 ** 6
 EVENTS_PER_REQ = 8          # start, check, acquire, load, load, store, release, emit
+FAIL_KINDS = ["rd", "reset", "timeout", "url"]
+
+
+def _fail_exc(kind):
+    import http.client
+    import socket
+    import urllib.error
+    if kind == "rd":
+        return http.client.RemoteDisconnected("Remote end closed connection without response")
+    if kind == "reset":
+        return ConnectionResetError(104, "Connection reset by peer")
+    if kind == "timeout":
+        return socket.timeout("timed out")
+    return urllib.error.URLError(OSError(111, "Connection refused"))
+
+
 SPELLINGS = ["x-request-id", "X-request-id", "X-Request-Id", "X-REQUEST-ID", "x-Request-ID"]
 
 
@@ -606,6 +622,32 @@ def gen_cases(rng, tier):
         c["late"] = True
         c["data"] = True
         cases.append(c)
+    # --- transport failures (flag "fail": [[thread, k, kind], ...]: the k-th call of `opener.open` made by that thread
+    #     raises after the request reached the "server" -- http.client.RemoteDisconnected, ConnectionResetError,
+    #     socket.timeout, URLError).  The caller gets the exception and goes on with its next request; every call of
+    #     `opener.open` is a request on the wire: its id counts like any other and the failed request used its number
+    for e in range(0, EVENTS_PER_REQ + 1):
+        for fk in (FAIL_KINDS if big else FAIL_KINDS[:1 + e % 2]):
+            c = _mk(two, [[0, 0, e], [1, BIG, 0]])
+            c["fail"] = [[0, 0, fk]] + ([[1, 1, FAIL_KINDS[e % len(FAIL_KINDS)]]] if e % 3 == 0 else [])
+            cases.append(c)
+    c = _mk([{"conn": 0, "reqs": _auto(3)}], [])
+    c["fail"] = [[0, 0, "rd"], [0, 1, "rd"]]          # two failures in a row
+    cases.append(c)
+    c = _mk([{"conn": 3, "reqs": [[], [[DOC_KEY, "mine"]], []]}], [])
+    c["fail"] = [[0, 1, "rd"], [0, 2, "reset"]]       # a request with a caller-supplied id fails
+    cases.append(c)
+    for n in range(50 if not big else 500):
+        nth = rng.choice([1, 2, 2, 3, 4])
+        c = _mk(_rand_threads(rng, nth, plain=rng.random() < 0.4), _rand_sched(rng, nth, rng.randrange(2, 30)),
+                c0=rng.choice([0, 0, 9999]))
+        c["fail"] = sorted([t, k, rng.choice(FAIL_KINDS)] for t, k in
+                           {(rng.randrange(nth), rng.randrange(3)) for _ in range(rng.randrange(1, 4))})
+        if n % 5 == 1:
+            c["late"] = True
+        if n % 5 == 2:
+            c["data"] = True
+        cases.append(c)
     return cases
 
 
@@ -629,7 +671,8 @@ def kind(case):
         flav = "disabled"
     elif any(r for t in case["threads"] for r in t["reqs"]):
         flav = "mixed-shared-headers-object" if case.get("share") else "mixed"
-    return f"{nth}thr-{flav}" + ("-late-derived" if case.get("late") else "") + ("-bodies" if case.get("data") else "")
+    return f"{nth}thr-{flav}" + ("-late-derived" if case.get("late") else "") + ("-bodies" if case.get("data") else "") \
+        + ("-transport-failures" if case.get("fail") else "")
 
 
 def shrink_candidates(case):
@@ -648,6 +691,10 @@ def shrink_candidates(case):
         yield dict(case, sched=sch[:i] + sch[i + 1:])
     if case.get("c0"):
         yield dict(case, c0=0)
+    fl = case.get("fail") or []
+    if len(fl) > 1:
+        for i in range(len(fl)):
+            yield dict(case, fail=fl[:i] + fl[i + 1:])
 
 
 # ------------------------------------------------------------------ implementation
@@ -684,6 +731,9 @@ def impl_run(case):
     sentinel = []
     order = []
     box = {}
+    failmap = {(t, k): kd for t, k, kd in (case.get("fail") or [])}
+    raised = {}                              # (thread, call number) -> the exception object raised there
+    caught = [[] for _ in range(nth)]        # per thread: [request index, call number] of injected failures the caller got
 
     class Opener:
         def open(self, request, *a, **kw):
@@ -702,6 +752,11 @@ def impl_run(case):
                 sched.record(me, S.K_EMIT)
                 outs[me].append(val)
                 order.append(me)
+                key = (me, len(outs[me]) - 1)
+                if key in failmap:
+                    # the request reached the server (it is recorded above); the answer never comes
+                    raised[key] = _fail_exc(failmap[key])
+                    raise raised[key]
             return _Resp()
 
     # no real opener is ever built (building one loads the system certificates: 40 ms): every implementation
@@ -771,7 +826,17 @@ def impl_run(case):
                         # headers" object) and passes that same object to every request, from every thread
                         hd = shared_hd.setdefault(json.dumps(h), hd)
                     data = [None, {"j": j}, "text", b"bytes"][(i + 2 * j) % 4] if case.get("data") else None
-                    m(f"/p/{i}/{j}", headers=hd, params={"q": j} if j % 2 else None, data=data)
+                    if not failmap:
+                        m(f"/p/{i}/{j}", headers=hd, params={"q": j} if j % 2 else None, data=data)
+                        continue
+                    try:
+                        m(f"/p/{i}/{j}", headers=hd, params={"q": j} if j % 2 else None, data=data)
+                    except Exception as e:  # noqa
+                        # the application gets the transport failure and goes on with its next request
+                        hit = [k for (t, k), x in raised.items() if t == i and x is e]
+                        if not hit:
+                            raise
+                        caught[i].append([j, hit[0]])
             return body
 
         ok = sched.run([mk(i) for i in range(nth)])
@@ -779,6 +844,9 @@ def impl_run(case):
         obs = {"ok": bool(ok), "untraced": bool(sched.untraced), "shared": bool(shared[0]), "cp": cp,
                "outs": outs, "errors": errors, "log": [[t, k] for t, k in sched.log], "anomalies": anomalies,
                "steps": sched.steps, "order": order}
+        if failmap:
+            obs["raised"] = sorted([t, k] for t, k in raised)
+            obs["caught"] = caught
         if ok:
             # one more request from the main thread, without the scheduler: shows whether a number went missing
             for x, real_lock in zip(impls, real_locks):
@@ -853,8 +921,30 @@ def oracle(case, obs):
     for a in obs["anomalies"]:
         out.append((a[0], f"request carries {a[1]}"))
     generated = []   # (thread, index, id) of requests whose id must have been generated
+    resent = set()
+    if case.get("fail"):
+        # transport failures: the exception the opener raised is what the caller of that very request gets, and a request
+        # is put on the wire once (one call of opener.open per request made by the application)
+        caught = obs.get("caught") or []
+        for t, k in obs.get("raised") or []:
+            got = [j for j, kk in (caught[t] if t < len(caught) else []) if kk == k]
+            if not got:
+                out.append(("transport-failure-swallowed", f"thread {t}: call {k} of opener.open raised "
+                            f"{dict(((a, b), c) for a, b, c in case['fail'])[(t, k)]!r} but no request of the caller failed with it"))
+            elif got[0] != k:
+                out.append(("request-resent", f"thread {t}: the failure of call {k} of opener.open surfaced in request {got[0]}"))
+        for i, t in enumerate(case["threads"]):
+            if str(i) not in obs["errors"] and len(obs["outs"][i]) != len(t["reqs"]):
+                resent.add(i)
+                out.append(("request-resent", f"thread {i} made {len(t['reqs'])} requests, the opener received "
+                            f"{len(obs['outs'][i])}: {obs['outs'][i]!r}"))
     for i, t in enumerate(case["threads"]):
         sent = obs["outs"][i]
+        if i in resent:
+            # requests and emissions cannot be paired up: every emitted value that is not a caller's value counts as generated
+            mine = {val for h in t["reqs"] for k, val in h if k.lower() == DOC_KEY.lower()}
+            generated.extend((i, j, v) for j, v in enumerate(sent) if v not in mine)
+            continue
         for j, h in enumerate(t["reqs"]):
             if j >= len(sent):
                 break
@@ -981,7 +1071,9 @@ LEVEL_TEXT = ("Full at model level, for ALL schedules / thread counts / request 
               "Only tested (correspondence + oracle, ~900 schedules quick / ~9000 thorough): that the model is the code -- CPython "
               "switches threads only between bytecodes and threading.Lock is a mutex; the request path outside the id section "
               "(RequestArguments copying the caller's dict, adapters, bodies, urllib's header capitalisation) leaves the header alone; "
-              "connections derived while others are in use; one headers dict object shared by many requests.  Finding "
+              "connections derived while others are in use; one headers dict object shared by many requests; transport failures (the "
+              "substitute opener raises RemoteDisconnected / ConnectionResetError / socket.timeout / URLError on chosen calls: the caller "
+              "gets that exception, the request is on the wire once, its number is used).  Finding "
               "caller-id-respelled-replaced (an id under another spelling such as 'x-request-id' was replaced and used a number) is FIXED "
               "in /repo by 2323115; the model follows the fixed code (other_spelling_passed_on), the oracle enforces the signature "
               "strictly, regression cases in corpus/C16/regression_respelled.json.  Header names are ASCII (str.lower/capitalize modelled "
